@@ -133,6 +133,22 @@ def f2_cells():
         add(t, "1.5e+1", 15.0)
         add(t, "-0.25", -0.25)
         add(t, "3.0", 3.0, annotate_let=True)
+        # integer-spelled literals with a float suffix
+        add(t, f"10{t}", 10.0)
+        add(t, f"1_0{t}", 10.0)
+        add(t, f"16777217{t}", 16777217.0)
+    # string and char escapes, line continuation (language reference, "Escape sequences")
+    em = lambda e: Host("emit_str", [e], "unit")
+    i32 = "i32"
+    for nm, spelling, text in [
+            ("simple", r"a\tb\nc\\d\"e\'f\rg", "a\tb\nc\\d\"e'f\rg"),
+            ("hex_unicode", r"\x41\u{42}\u{e9}z", "AB\u00e9z"),
+            ("continuation", "ab\\\n   cd", "abcd"),
+            ("continuation_blank_line", "ab\\\n\n   cd", "abcd"),
+            ("continuation_tabs_and_lines", "ab\\\n\t \n\t cd", "abcd"),
+            ("continuation_at_start", "\\\n  x", "x"),
+            ("continuation_then_escape", "p\\\n   \\tq", "p\tq")]:
+        out.append(P(f"f2_string_{nm}", "F2", Program([fn_main([("a", i32)], i32, [ExprStmt(em(StrLit(text, spelling=spelling)))], Var("a", i32))]), {"trace", "value"}))
     # unconstrained literals default to i32 / f64
     x = Var("x", "i32")
     out.append(P("f2_default_i32", "F2", Program([fn_main([("a", "bool")], "bool", [Let("x", "i32", Lit("i32", 2147483647, spelling="2147483647"))],
@@ -434,6 +450,26 @@ def f5_cells(seed, n_random=12):
                 arms.append((vn, binds, None, Lit(t, 90 + vi)))
         out.append(P(f"f5_enum_{idx}", "F5", Program([fn_main([("a", t), ("b", t), ("c", t)], t, [Let("e", ety, sel), Let("e2", ety, e)],
                                                                 Match(Var("e2", ety), arms, t))], enums={f"E{idx}": variants_}), {"value"}))
+    # matches that name only some variants - not a prefix of the declaration order - and send the rest to `_`
+    t = "i32"
+    variants_ = [("A", [t]), ("B", ["u8", t]), ("C", []), ("D", [t])]
+    ety = ("enum", "S4")
+    a, b, c = Var("a", t), Var("b", t), Var("c", t)
+    mkv = {"A": Ctor(ety, "A", [a]), "B": Ctor(ety, "B", [Lit("u8", 7), b]), "C": Ctor(ety, "C", []), "D": Ctor(ety, "D", [c])}
+    sel4 = If(Bin("<", a, b, "bool"), Block([], If(Bin("<", b, c, "bool"), Block([], mkv["A"], ety), Block([], mkv["B"], ety), ety), ety),
+              Block([], If(Bin("<", a, c, "bool"), Block([], mkv["C"], ety), Block([], mkv["D"], ety), ety), ety), ety)
+    binds = {"A": ["p"], "B": ["k", "p"], "C": [], "D": ["p"]}
+    body = {"A": Bin("+", Var("p", t), Lit(t, 100), t), "B": Bin("+", Var("p", t), Lit(t, 200), t), "C": Lit(t, 300), "D": Bin("+", Var("p", t), Lit(t, 400), t)}
+    for named in (["B"], ["C"], ["D"], ["B", "D"], ["D", "B"], ["C", "A"], ["A", "C", "D"], ["D", "C", "B"]):
+        arms = [(vn, binds[vn], None, body[vn]) for vn in named] + [("_", [], None, Lit(t, -1))]
+        out.append(P(f"f5_match_subset_{'_'.join(named)}", "F5", Program([fn_main([("a", t), ("b", t), ("c", t)], t, [Let("e", ety, sel4)], Match(Var("e", ety), arms, t))],
+                                                                       enums={"S4": variants_}), {"value"}))
+    ot = ("opt", t)
+    o = If(Bin("<", a, b, "bool"), Block([], Ctor(ot, "Some", [c]), ot), Block([], Ctor(ot, "None", []), ot), ot)
+    out.append(P("f5_match_subset_option_none_first", "F5", Program([fn_main([("a", t), ("b", t), ("c", t)], t, [Let("o", ot, o)],
+                 Match(Var("o", ot), [("None", [], None, a), ("_", [], None, b)], t))]), {"value"}))
+    out.append(P("f5_match_subset_option_some_first", "F5", Program([fn_main([("a", t), ("b", t), ("c", t)], t, [Let("o", ot, o)],
+                 Match(Var("o", ot), [("Some", ["v"], None, Var("v", t)), ("_", [], None, b)], t))]), {"value"}))
     return out
 
 
@@ -808,6 +844,18 @@ def f10_cells():
     vc = ("verdict", "u8", "u64")
     out.append(P("f10_const_k_ver", "F10", Program([fn_main([("a", u64)], u64, [], Match(Const("K_VER_U8_U64", vc, ("Accept", 7)), [
         ("Accept", ["v"], None, Bin("+", x64, Lit(u64, 1), u64)), ("Reject", ["w"], None, Var("w", u64))], u64))]), {"value"}))
+    # Option / Result built by a registered Rust function and taken apart by the script
+    u32 = "u32"
+    au = Var("a", u32)
+    ou32, ru = ("opt", u32), ("result", u32, i32)
+    out.append(P("f10_host_returns_option", "F10", Program([fn_main([("a", u32)], u32, [], Match(Host("opt_of", [au], ou32), [
+        ("Some", ["v"], None, Bin("+", Var("v", u32), Lit(u32, 1), u32)), ("None", [], None, au)], u32))]), {"value", "trace"}))
+    out.append(P("f10_host_returns_result", "F10", Program([fn_main([("a", u32)], u32, [], Match(Host("res_of", [au], ru), [
+        ("Ok", ["v"], None, Bin("+", Var("v", u32), Lit(u32, 1), u32)),
+        ("Err", ["e"], None, If(Bin("<", Var("e", i32), Lit(i32, 0), "bool"), Block([], Lit(u32, 2), u32), Block([], Lit(u32, 3), u32), u32))], u32))]), {"value", "trace"}))
+    out.append(P("f10_host_returns_result_payload_to_host", "F10", Program([fn_main([("a", u32)], u32, [Let("r", ru, Host("res_of", [au], ru))], Match(Var("r", ru), [
+        ("Ok", ["v"], None, Block([ExprStmt(Host("emit_u32", [Var("v", u32)], "unit"))], Var("v", u32), u32)),
+        ("Err", ["e"], None, Block([ExprStmt(Host("emit_i32", [Var("e", i32)], "unit"))], Lit(u32, 0), u32))], u32))]), {"value", "trace"}))
     viu = ("verdict", i32, "unit")
     out.append(P("f10_ret_verdict_i32_unit", "F10", Program([fn_main([("a", i32)], viu, [], If(Bin("<", a, Lit(i32, 0), "bool"), Block([], Ctor(viu, "Accept", [a]), viu), Block([], Ctor(viu, "Reject", [Lit("unit", None)]), viu), viu))]), {"value"}))
     return out
